@@ -77,7 +77,11 @@ def rule_g(repo, chk):
             if isinstance(n, ast.Call) and any(src(a) == full for a in n.args) and not (isinstance(n.func, ast.Name) and n.func.id == 'len'):
                 bad.append((m, n, f'`{src(n)[:60]}` reads the live FIFO wholesale'))
             if isinstance(n, (ast.For, ast.comprehension)) and src(n.iter) == full:
-                bad.append((m, n, 'iterates the live FIFO'))
+                # a read-only view (nothing in the method takes entries out or puts them elsewhere) cannot lose or duplicate an entry
+                mutates = any(isinstance(c, ast.Call) and isinstance(c.func, ast.Attribute) and c.func.attr in ('popleft', 'pop', 'clear', 'remove', 'extend', 'append', 'appendleft')
+                              for c in walk_no_defs(m.node)) or any(isinstance(c, ast.Call) and call_name(c) in ('heappush', 'heappop') for c in walk_no_defs(m.node))
+                if mutates:
+                    bad.append((m, n, 'iterates the live FIFO'))
     chk.ob('g', q.ref, 'the loop removes entries from its own FIFO only through popleft (atomic per entry); nothing a concurrent fire() appends can be discarded or copied twice',
            not bad, bad[0][0].loc(bad[0][1]) if bad else q.module.relpath, detail='; '.join(f'{m.name}: {w}' for m, _n, w in bad[:4]), discr='fifo-atomic-removal')
     g = d.cfg()
